@@ -368,7 +368,13 @@ class SymMode(TorchDispatchMode):
         kw = {k: to_ids3(v) for k, v in kwargs.items() if k not in ("dtype", "memory_format", "pin_memory", "non_blocking", "layout", "device")}
         if "memory_format" in kwargs:
             kw["memory_format"] = kwargs["memory_format"]
-        if func.overloadpacket is aten.constant_pad_nd:
+        if func.overloadpacket in (aten.index, aten._unsafe_index):
+            # indices (args[1]) are positions, not data; symbolic indices are not supported
+            if any(isinstance(i, torch.Tensor) and self.is_sym(i) for i in args[1]):
+                raise Unsupported("symbolic index tensor")
+            ids = func(to_ids3(args[0]), args[1])
+            padval = 0
+        elif func.overloadpacket is aten.constant_pad_nd:
             a = list(args)
             a[0] = to_ids3(a[0])
             ids = func(a[0], a[1], 0)
